@@ -28,8 +28,9 @@ BOUNDS = ["workload kinds {iterative 2-cell cycle, CSE array formula, plain chai
           "inside the j-th cell evaluation of the first, j symbolic 1..4",
           "iterative settings of both workloads symbolic: iterations 1..2 (1..3 for the first of two iterative workloads, whose partner then has fixed input and pass count), tolerance a symbolic choice from {0.5, 5}; inputs symbolic ints |v|<=3",
           "fresh thread: load / evaluate / set_value / trim_graph on an identity with an empty thread-local namespace",
-          "NOT covered (not encodable in one symbolic run): interleavings in which the second workload is itself suspended while the "
-          "first continues, preemption inside a library function, data races on _Cell.ctr"]
+          "overlap schedules on two real threads: A symbolic on the analysed thread, B concrete on a helper thread that is held inside one of "
+          "its formula evaluations while A runs to completion (A enters first); kinds {CSE array, plain, iterative} pairwise",
+          "NOT covered: preemption inside a library function, more than one suspension point, data races on _Cell.ctr"]
 ASSUMPTIONS = ["model of threading.local: per-identity attribute namespace, initially empty, class attributes shared",
                "floats as exact reals"]
 EXTRA_MODELS = ["threading.local objects of _IterativeEvalTracker._ns and _ArrayFormulaContext._ns replaced by an identity-keyed namespace"]
@@ -165,6 +166,71 @@ def ob_interleave(ka, kb, j: int, va: int, vb: int, ita: int, itb: int, ta: bool
     return _eq(tuple(got_b[0]), tuple(solo_b))
 
 
+# ------------------------------------------------------------------ real-thread overlap (non-nested) schedules
+from vf import vfplugin  # noqa: E402
+
+wb.TEMPLATES.setdefault("g_cse", {"A1": 1, "A2": 2, "B1": ("cse", "B1:B3", "=VGATE(A1:A2)*2"), "C1": "=SUM(B1:B2)", "D1": ("cse", "D1:E2", "=VGATE(A1)+A2")})
+wb.TEMPLATES.setdefault("g_plain", {"A1": 1, "A2": 2, "B1": "=VGATE(A1)+A2", "C1": "=B1*2"})
+wb.TEMPLATES.setdefault("g_iter", {"A1": 8, "B1": "=A1+VGATE(B2)/2", "B2": "=B1/2", "C1": "=B1+1"})
+G_CELLS = {"g_cse": ("D1:E2", "B1:B3", "C1"), "g_plain": ("B1", "C1"), "g_iter": ("B1", "C1")}
+
+
+def _gmodel(t, sub=None):
+    with wb.notrace():
+        m = ExcelCompiler(excel=wb.SubstWrapper(wb.make_workbook(t), {}), plugins=("vf.vfplugin",),
+                          cycles=True if t == "g_iter" else None)
+    if sub:
+        m.excel.subst.update(sub)
+    return m
+
+
+def _grun(m, t, it=None, tol=None):
+    if t == "g_iter":
+        return tuple(m.evaluate(wb.addr(c), iterations=it, tolerance=tol) for c in G_CELLS[t])
+    return tuple(m.evaluate(wb.addr(c)) for c in G_CELLS[t])
+
+
+def ob_overlap(ta, tb, va: int, ita: int, tola: bool) -> Optional[bool]:
+    """a genuinely overlapping (non-nested) schedule on two real threads: A (symbolic, this thread) enters a formula,
+    B (concrete, helper thread) enters one of its formulas and is held there, A runs to completion, then B is released.
+    Both must obtain exactly their solo results."""
+    if not (-9 <= va <= 9 and 1 <= ita <= 3):
+        return None
+    ta_tol, tb_tol = (0.5 if tola else 0.01), 5
+    vfplugin.gate_reset(None)
+    solo_a = _grun(_gmodel(ta, {wb.addr("A1"): va}), ta, ita, ta_tol)
+    with wb.notrace():
+        vfplugin.gate_reset(None)
+        solo_b = _grun(_gmodel(tb), tb, 2, tb_tol)
+    ma, mb = _gmodel(ta, {wb.addr("A1"): va}), _gmodel(tb)
+    box = {}
+
+    def b_work():
+        try:
+            box["r"] = _grun(mb, tb, 2, tb_tol)
+        except BaseException as e:  # noqa
+            box["e"] = repr(e)
+
+    def start_b():
+        with wb.notrace():
+            th = threading.Thread(target=b_work, name="vf-B")
+            box["t"] = th
+            th.start()
+            if not vfplugin.GATE["entered"].wait(30):
+                box["e"] = "B never entered its formula"
+    vfplugin.gate_reset(start_b)
+    try:
+        got_a = _grun(ma, ta, ita, ta_tol)
+    finally:
+        with wb.notrace():
+            vfplugin.GATE["release"].set()
+            if "t" in box:
+                box["t"].join(30)
+    if "e" in box or "r" not in box:
+        return False
+    return _eq(tuple(got_a), tuple(solo_a)) and _eq(tuple(box["r"]), tuple(solo_b))
+
+
 def ob_fresh_thread(op, v: int) -> Optional[bool]:
     """a public operation on a thread identity that has never used the library works (no exception)"""
     if not -9 <= v <= 9:
@@ -211,6 +277,10 @@ def obligations(tier):
                 continue
             obs.append(Obligation(PROP, f"interleave[{ka}|{kb}]", __name__, "ob_interleave", (ka, kb),
                                   timeout=400 if tier == "quick" else 2400, float_mode="real", group="interleave"))
+    for ta in ("g_cse", "g_plain", "g_iter"):
+        for tb in ("g_cse", "g_plain", "g_iter"):
+            obs.append(Obligation(PROP, f"overlap[{ta[2:]}|{tb[2:]}]", __name__, "ob_overlap", (ta, tb),
+                                  timeout=300 if tier == "quick" else 1200, float_mode="real", group="overlap"))
     for op in ("set_value", "evaluate", "load", "trim_graph"):
         obs.append(Obligation(PROP, f"fresh_thread[{op}]", __name__, "ob_fresh_thread", (op,), timeout=200, float_mode="real",
                               group="fresh"))
